@@ -9,7 +9,7 @@ META = {
     "technique": "Coq proof (induction over circuits and frames; per-gate tables by exhaustive kernel computation) that the Pauli tracker commutes every Pauli frame through every {H,S,CNOT} circuit, with vm_compute correspondence against pennylane.ftqc.pauli_tracker; MBQC conversion decided per measurement-outcome branch by an independent branch-enumerating state-vector reference (textbook matrices, documented measurement bases) and, for the one-qubit patterns, by exact simulation over Q(zeta_8) inside Coq",
     "design_ref": "DESIGN.md §3 C74",
     "text": "(A) Props/C74.v: commute_through_gate / commute_through_circuit state C P = u P' C (u in {1,i,-1,-i}) for every gate and every circuit over {H,S,CNOT} on any number of wires, every Pauli frame and every state, where P' is what the tracker records; semantics is built from the literal textbook matrices (semantics_is_matrix_semantics), and pauli_tracker_ok_{H,S,CNOT} restate the tables on literal 2x2/4x4 matrices with Hermitian labels (sign +-1); pauli_prod_is_product_up_to_phase for all lists; corrected_sample_undoes_frame: xor-ing a computational-basis sample with the x record undoes any frame. The transcription (pauli_to_xz, xz_to_pauli, pauli_prod, commute_clifford_op incl. its validation, _parse_mid_measurements, _get_xz_record, _correct_samples) is evaluated inside Coq on the inputs the real functions are run on: all frames of 1-2 wires, random Clifford circuits/frames, random tapes with mid-measurement records, malformed inputs. (B) convert_to_mbqc_formalism (online corrections, diagonalize_mcms False/True, and ftqc.diagonalize_mcms applied afterwards) is run on every gate of the supported set and on random 1-2 wire circuits; every outcome branch of each single gate pattern (16 branches; all 8192 of the CNOT pattern) and sampled branches of composite circuits are simulated by the harness from the serialised program (graph edges, measurement plane/angle, truth tables of the conditions) and the state on the output wires must equal the original unitary applied to one half of Bell pairs (i.e. the whole unitary up to a global phase) with every auxiliary wire back in |0>. The one-qubit patterns are additionally simulated exactly in Coq for all 16 branches on inputs |0> and |+>. get_byproduct_corrections is checked semantically: with the online corrections removed, X^x Z^z of the returned record repairs the branch state. GraphStatePrep: decomposition = H on every wire + CZ exactly on the graph edges under the sorted-node wire map. Parametric measurements: diagonalizing gates map the documented basis states to |0>,|1>.",
-    "note": "Not a theorem: the full invariant of _get_xz_record with byproducts (ideal state = record applied to the actual MBQC state after every gate) - its ingredients are proved (gate commutation, Pauli products, sample correction) and the composition is tied by correspondence plus the per-branch semantic check of get_byproduct_corrections. Known finding kept under finding:yz_plane_diagonalizing_gate_sign: for plane=YZ the diagonalizing gate RX(-angle) measures cos(t/2)|0> - i sin(t/2)|1>, the docstring of measure_arbitrary_basis says + i (XY and ZX agree with it; the MBQC conversion only uses XY). Trusted: Coq kernel; stdlib functional extensionality (states are functions); hand transcription of pauli_tracker.py tied by correspondence only; Hadamard is modelled as sqrt2*H (homogeneous statements). Part B is a differential/semantic check per branch, not a Gallina model of the transform: the branch simulator in this file (numpy, textbook matrices, 1e-9) is the reference; the exact Coq route covers the one-qubit gate patterns only (the 15-qubit CNOT pattern is too large for exact polynomial arithmetic) and takes its unitary gate matrices from PennyLane's matrix code via the translator, the measurement projectors from the documented formula. Branches of composite circuits are sampled. z of the xz record is read through the private _get_xz_record. Initial logical->physical wire map is read from converting an Identity-only tape. convert_to_mbqc_gateset is checked on a few circuits numerically only. Non-reset parametric measurements are outside the reference.",
+    "note": "Not a theorem: the full invariant of _get_xz_record with byproducts (ideal state = record applied to the actual MBQC state after every gate) - its ingredients are proved (gate commutation, Pauli products, sample correction) and the composition is tied by correspondence plus the per-branch semantic check of get_byproduct_corrections. The YZ-plane docstring of measure_arbitrary_basis was corrected in /repo (fix: commit) to the implemented cos(t/2)|0> - i sin(t/2)|1>. Trusted: Coq kernel; stdlib functional extensionality (states are functions); hand transcription of pauli_tracker.py tied by correspondence only; Hadamard is modelled as sqrt2*H (homogeneous statements). Part B is a differential/semantic check per branch, not a Gallina model of the transform: the branch simulator in this file (numpy, textbook matrices, 1e-9) is the reference; the exact Coq route covers the one-qubit gate patterns only (the 15-qubit CNOT pattern is too large for exact polynomial arithmetic) and takes its unitary gate matrices from PennyLane's matrix code via the translator, the measurement projectors from the documented formula. Branches of composite circuits are sampled. z of the xz record is read through the private _get_xz_record. Initial logical->physical wire map is read from converting an Identity-only tape. convert_to_mbqc_gateset is checked on a few circuits numerically only. Non-reset parametric measurements are outside the reference.",
     "assumptions": ["all wires start in |0>; a reset measurement returns its wire to |0>",
                     "outcome 0/1 of an XY-plane measurement with angle phi projects on (|0> +/- e^{i phi}|1>)/sqrt2 (documentation of measure_arbitrary_basis)"],
     "trusted": ["hand-written model coq/Disc/PauliTrackModel.v tied to /repo by correspondence only", "branch simulator in harness/props/c74.py", "harness/exactsim.py"],
@@ -64,7 +64,7 @@ def basis_vec(plane, angle, b):
     if plane == "ZX":
         return np.array([c, s], dtype=complex) if b == 0 else np.array([-s, c], dtype=complex)
     if plane == "YZ":
-        return np.array([c, 1j * s]) if b == 0 else np.array([1j * s, c])
+        return np.array([c, -1j * s]) if b == 0 else np.array([-1j * s, c])   # cos|0> - i sin|1> (docstring as corrected in /repo)
     raise KeyError(plane)
 
 
@@ -673,7 +673,7 @@ def run(ctx):
         if not okm:
             ctx.violation("mcm-meta:" + json.dumps(m, sort_keys=True), {"request": m, "got": r}, what="parametric mid-circuit measurement has the wrong plane/angle/reset")
         if not okb:
-            key = "finding:yz_plane_diagonalizing_gate_sign" if want[0] == "YZ" else "mcm-basis:" + json.dumps(m, sort_keys=True)
+            key = "mcm-basis:" + json.dumps(m, sort_keys=True)
             ctx.violation(key, {"request": m, "diagonalizing_gates": r["diag"], "documented_basis_state_0": [str(v) for v in basis_vec(want[0], want[1], 0)],
                                 "image_under_diagonalizing_gates": [str(v) for v in U @ basis_vec(want[0], want[1], 0)]},
                           what=f"diagonalizing gates of a {want[0]}-plane measurement do not map the documented basis states to |0>, |1>")
